@@ -11,10 +11,12 @@ from simkit.runner import RunOutcome
 
 
 SUB_TASKS = '''
+from simkit import proglib as _pl
+
 @task()
 def inc(x):
     hit('inc', x)
-    return mix('inc{salt_inc}', x)
+    return mix('inc{salt_inc}', x, _pl.epoch())
 
 
 @task()
@@ -119,6 +121,7 @@ class C38(EngineACheck):
         out.probe("family_programs")
         source, items = gen_subrun_family(ch)
         salt, raises = 0, True
+        proglib.EPOCH[0] = 0
         db = schedsim.fresh_db("subrun-fam.db")
         nexec = 2 + ch.choice(2, "nexec")
         history = []
@@ -139,10 +142,17 @@ class C38(EngineACheck):
                         desc = f"boom raises -> {raises}"
                 # some later executions run with caching switched off (redun run --no-cache):
                 # then nothing at all may be replayed across executions
-                nocache = ex > 0 and ch.coin(0.3, "run-without-cache")
+                last = ex == nexec - 1
+                nocache = ex > 0 and ch.coin(0.5 if last else 0.3, "run-without-cache")
                 rk = {"cache": False} if nocache else None
                 if nocache:
                     out.probe("executions_without_cache")
+                if nocache and last and ch.coin(0.7, "external-change"):
+                    # the world outside changed (the tasks read it): a run without caching
+                    # must not show anything an earlier execution computed
+                    proglib.EPOCH[0] += 1
+                    desc += " + external change"
+                    out.probe("external_change_before_no_cache_run")
                 # direct evaluation of the same program version on an empty backend
                 direct = RawProgram(source(True, salt, raises), limits={"sr": 1})
                 sess.reload(direct)
